@@ -259,6 +259,48 @@ pub fn run_generic(cx: &mut Ctx, fmt: Fmt) {
             });
         }
     }
+    if !miri {
+        // a stretch of more than 64 KiB without any 3-byte repeat inside the window (a stream of
+        // 16-bit counters), after 0..7 other tokens and followed by compressible data
+        let prefixes: &[usize] = if cx.a.quick() { &[0, 3, 6] } else { &[0, 1, 2, 3, 4, 5, 6, 7] };
+        for &pre in prefixes {
+            cx.case("long_match_free_stretch", |c| {
+                c.sit("match_free_stretch_over_64KiB");
+                // `pre` distinct bytes and a short run (one literal + one reference) first, so that the
+                // long literal stretch starts at a token index that is not a multiple of 8
+                let mut v: Vec<u8> = (0..pre).map(|i| 0xF0 + i as u8).collect();
+                v.extend(std::iter::repeat(0x41u8).take(20));
+                for i in 0..(33_500u32 + 7 * pre as u32) {
+                    v.extend_from_slice(&(i as u16).to_be_bytes());
+                }
+                v.extend(std::iter::repeat(0x41u8).take(40 + pre));
+                v.extend_from_slice(b"tail");
+                check_compress(c, fmt, &v, &format!("{} bytes + run of 20 + 16-bit counters (no repeat for > 64 KiB) + run", pre));
+            });
+        }
+        // two large inputs of equal length compressed one after the other, differing only in a few
+        // bytes deep inside: each call's output depends on its own input alone
+        cx.case("similar_large_inputs_back_to_back", |c| {
+            c.sit("similar_large_inputs_back_to_back");
+            let mut rng = crate::prng::Rng::new(0x51A1);
+            let pat = rng.bytes(700);
+            let mut a = lzgen::periodic(&pat, 100_000);
+            for k in 0..200 {
+                let at = rng.below(a.len());
+                a[at] = k as u8;
+            }
+            let mut b = a.clone();
+            for at in [33_001usize, 45_001, 50_003, 66_666] {
+                b[at] ^= 0x5A;
+            }
+            check_compress(c, fmt, &a, "large input A");
+            check_compress(c, fmt, &b, "large input B = A with 4 bytes changed in the middle, right after A");
+            check_compress(c, fmt, &a, "large input A again, right after B");
+            let mut d = a.clone();
+            d[99_999 - 40_000] ^= 1;
+            check_compress(c, fmt, &d, "A with one bit changed, right after A");
+        });
+    }
     // inputs that are themselves compressed streams (an already-compressed file compressed again)
     for k in 0..(if miri { 2 } else { 24 }) {
         cx.case("inputs_that_are_streams", |c| {
@@ -324,6 +366,32 @@ pub fn run_generic(cx: &mut Ctx, fmt: Fmt) {
         });
     }
     if !cx.a.quick() && !miri && cx.a.scale >= 0.99 {
+        if fmt == Fmt::Lz10 {
+            // more than 4 MiB of word-structured text: short matches nearby, longer ones further back
+            cx.case("large_text_like_4MiB", |c| {
+                c.sit("large_input");
+                let mut rng = crate::prng::Rng::new(44);
+                let mut v: Vec<u8> = Vec::with_capacity(4_300_000);
+                let mut phrases: Vec<Vec<u8>> = Vec::new();
+                while v.len() < 4_300_000 {
+                    if !phrases.is_empty() && rng.chance(1, 3) {
+                        let ph = rng.pick(&phrases).clone();
+                        v.extend(ph);
+                    } else {
+                        let l = rng.range(3, 24);
+                        let ph: Vec<u8> = (0..l).map(|_| b'a' + rng.below(6) as u8).collect();
+                        v.extend(&ph);
+                        if phrases.len() < 3000 {
+                            phrases.push(ph);
+                        } else {
+                            let k = rng.below(3000);
+                            phrases[k] = ph;
+                        }
+                    }
+                }
+                check_compress(c, fmt, &v, "text-like, 4.3 MB");
+            });
+        }
         cx.case("large_periodic_4MiB", |c| {
             c.sit("large_input");
             let mut rng = crate::prng::Rng::new(4);
